@@ -5,7 +5,9 @@
 //! Oracle: the reference client (UTF-16 code units, written from the LSP specification, shares nothing
 //! with pos_conv.rs) resolves every diagnostic range to exactly the lint's characters, applies every
 //! TextEdit and gets what Suggestion::apply gets, and code actions requested at every position inside
-//! a diagnostic range contain that lint's fixes.
+//! a diagnostic range contain that lint's fixes.  Histories on ONE DocumentState (the order of operations
+//! the doc_state mutex of backend.rs admits: the document is replaced, code actions are served, and only
+//! then - or never - diagnostics are generated again): code actions always speak about the CURRENT text.
 use harper_core::linting::{Lint, LintGroup, Linter, Suggestion};
 use harper_core::parsers::PlainEnglish;
 use harper_core::{Dialect, Document, FstDictionary, Lrc, MergedDictionary, Span};
@@ -99,8 +101,8 @@ impl RefClient {
     }
 }
 
-/// Report::fail keeps the first 2000 failures of a run; the known finding F9 alone produces more than that
-/// in the thorough tier.  So that no class can crowd out another, at most PER_CLASS failures of one class are
+/// Report::fail keeps the first 2000 failures of a run; one defect can produce more than that in the
+/// thorough tier.  So that no class can crowd out another, at most PER_CLASS failures of one class are
 /// listed; the rest are only counted (`fail_not_listed:<class>` in the distribution).
 const PER_CLASS: usize = 140;
 thread_local! { static LISTED: std::cell::RefCell<std::collections::HashMap<String, usize>> = Default::default(); }
@@ -127,35 +129,10 @@ fn has_lone_cr(t: &[char]) -> bool {
 fn inside_crlf(t: &[char], i: usize) -> bool {
     i > 0 && i < t.len() && t[i - 1] == '\r' && t[i] == '\n'
 }
-/// the class of F9 (Model/PosConv.v: KnownClass): a position on the final line, line >= 1
+/// the class of the FIXED finding F9 (Model/PosConv.v: KnownClass): a position on the final line, line >= 1.
+/// Only used to describe the input distribution: since 229693d no failure is excused there.
 fn known_class(t: &[char], line: u32) -> bool {
     line >= 1 && t.iter().filter(|c| **c == '\n').count() == line as usize
-}
-/// range_to_span at a single position (start == end: Span::new cannot panic)
-fn idx_of(t: &[char], p: Position) -> Result<usize, String> {
-    guarded(|| range_to_span(t, Range { start: p, end: p }).start)
-}
-/// F9's signature at one position: it lies on the final line (line >= 1) and is answered exactly as
-/// the same column one line up is answered ("resolved on the line before it")
-fn f9_explains(t: &[char], p: Position, got: usize) -> bool {
-    known_class(t, p.line) && idx_of(t, Position { line: p.line - 1, character: p.character }) == Ok(got)
-}
-/// a failed request over (p1, p2) is an occurrence of F9 iff at least one endpoint is answered wrongly
-/// and every wrongly answered endpoint carries F9's signature
-fn f9_request(t: &[char], rc: &RefClient, p1: Position, p2: Position) -> bool {
-    let mut any_wrong = false;
-    for p in [p1, p2] {
-        let (want, got) = (rc.resolve(p), idx_of(t, p));
-        if want.is_none() || got.as_ref().ok().copied() == want {
-            continue;
-        }
-        any_wrong = true;
-        match got {
-            Ok(g) if f9_explains(t, p, g) => {}
-            _ => return false,
-        }
-    }
-    any_wrong
 }
 fn pos(l: usize, c: usize) -> Position {
     Position { line: l as u32, character: c as u32 }
@@ -324,15 +301,7 @@ fn check_lookup(rep: &mut Report, t: &[char], rc: &RefClient, p1: Position, p2: 
                 Err(m) => format!("a panic ({m})"),
             };
             let inp = json!({"kind": "lookup", "text": t.iter().collect::<String>(), "p1": [p1.line, p1.character], "p2": [p2.line, p2.character], "origin": origin});
-            if f9_request(t, rc, p1, p2) {
-                fail(rep, 
-                    "lookup_last_line",
-                    format!("range {} denotes characters {i1}..{i2} but range_to_span answers {got}: a position on the final line (line >= 1) is resolved on the line before it", fmt_range(&rg)),
-                    inp,
-                );
-            } else {
-                fail(rep, "lookup_wrong", format!("range {} denotes characters {i1}..{i2} but range_to_span answers {got}", fmt_range(&rg)), inp);
-            }
+            fail(rep, "lookup_wrong", format!("range {} denotes characters {i1}..{i2} but range_to_span answers {got}", fmt_range(&rg)), inp);
         }
     } else {
         rep.count("lookup:invalid_position(correspondence only)");
@@ -434,6 +403,183 @@ fn check_text(rep: &mut Report, cx: &Ctx, r: &mut Rng, t: &[char], origin: &str,
     }
 }
 
+/// the lints a DocumentState reports for its current document, computed the way generate_diagnostics does
+fn lints_like_state(st: &mut DocumentState) -> Vec<Lint> {
+    let temp = st.linter.config.clone();
+    st.linter.config.fill_with_curated();
+    let mut lints = st.linter.lint(&st.document);
+    st.linter.config = temp;
+    st.ignored_lints.remove_ignored(&mut lints, &st.document);
+    lints
+}
+
+/// a DocumentState as backend.rs:update_document constructs it (constructor + ..Default::default(): the
+/// harness must keep building when a field is added)
+fn new_state(dict: &Arc<FstDictionary>) -> DocumentState {
+    let mut merged = MergedDictionary::new();
+    merged.add_dictionary(dict.clone());
+    let merged = Arc::new(merged);
+    DocumentState {
+        linter: LintGroup::new_curated(merged.clone(), Dialect::American),
+        dict: merged.clone(),
+        base_dict: merged,
+        language_id: Some("plaintext".to_string()),
+        ..Default::default()
+    }
+}
+
+/// The code-action oracle for ONE lint `l` of the text `t` the client holds: code actions requested at the
+/// positions inside [l.span) (all of them, or a sample for long spans; cursor and selection shapes) must
+/// contain that lint's fixes with the range `want_range`; every returned edit, applied by the reference
+/// client to `t`, must be what Suggestion::apply yields on the lint embedded next to it; and (`legit`)
+/// every lint the answer speaks about must be a lint of `t`.  `situation` is appended to the messages.
+#[allow(clippy::too_many_arguments)]
+fn check_actions_for_lint(
+    rep: &mut Report,
+    st: &mut DocumentState,
+    cfg: &CodeActionConfig,
+    r: &mut Rng,
+    t: &[char],
+    rc: &RefClient,
+    l: &Lint,
+    want_range: Range,
+    max_positions: usize,
+    base: &Value,
+    situation: &str,
+    legit: &[Value],
+) {
+    let (a, b) = (l.span.start, l.span.end);
+    let mut idxs: Vec<usize> = (a..b).collect();
+    if idxs.len() > max_positions {
+        let mut pick = vec![a, a + 1, b - 1, b - 2];
+        pick.truncate(max_positions.max(2));
+        while pick.len() < max_positions {
+            pick.push(a + r.below(b - a));
+        }
+        pick.sort();
+        pick.dedup();
+        idxs = pick;
+    }
+    let want_lint = serde_json::to_value(l).unwrap();
+    for i in idxs {
+        if inside_crlf(t, i) {
+            continue;
+        }
+        let p = rc.position_of_char(i);
+        // an editor sends the cursor (empty range) or the selection; take both shapes
+        let rg = if i % 3 == 2 { Range { start: p, end: want_range.end } } else { Range { start: p, end: p } };
+        rep.eval();
+        rep.count("code_action_requests");
+        if known_class(t, rg.start.line) {
+            rep.count("code_action_requests:on_final_line(line>=1)");
+        }
+        let acts = guarded(|| st.generate_code_actions(rg, cfg));
+        let mut req = base.clone();
+        req["at"] = json!([rg.start.line, rg.start.character, rg.end.line, rg.end.character]);
+        let miss = |rep: &mut Report, why: String| {
+            fail(rep, "code_action_missing", format!("code actions requested at {} inside the diagnostic \"{}\" ({}){situation}: {why}", fmt_range(&rg), l.message, fmt_range(&want_range)), req.clone());
+        };
+        let acts = match acts {
+            Ok(a) => a,
+            Err(m) => {
+                miss(rep, format!("panic: {m} at {}", last_panic_location()));
+                continue;
+            }
+        };
+        // split the answer into one group per lint: its CodeActions, then the HarperIgnoreLint command
+        let mut pending: Vec<(String, TextEdit)> = vec![];
+        let mut found = false;
+        for act in &acts {
+            match act {
+                CodeActionOrCommand::CodeAction(_) => pending.extend(edits_of(std::slice::from_ref(act))),
+                CodeActionOrCommand::Command(c) if c.command == "HarperIgnoreLint" => {
+                    let lj = c.arguments.as_ref().and_then(|a| a.get(1)).cloned().unwrap_or(Value::Null);
+                    let group = std::mem::take(&mut pending);
+                    let Ok(gl) = serde_json::from_value::<Lint>(lj.clone()) else {
+                        fail(rep, "embedded_lint_unreadable", "the lint embedded in HarperIgnoreLint does not deserialise".into(), req.clone());
+                        continue;
+                    };
+                    if !legit.contains(&lj) {
+                        fail(rep, "code_action_not_a_lint", format!("code actions requested at {}{situation}: the answer offers fixes for the lint \"{}\" at {:?}, which is not a lint of the text the client holds", fmt_range(&rg), gl.message, gl.span), req.clone());
+                    }
+                    // every returned edit, applied by the client, is the suggestion applied to the span
+                    if group.len() != gl.suggestions.len() {
+                        fail(rep, "edit_count", format!("{} edits for {} suggestions", group.len(), gl.suggestions.len()), req.clone());
+                    }
+                    for ((title, e), s) in group.iter().zip(&gl.suggestions) {
+                        let want = guarded(|| {
+                            let mut v = t.to_vec();
+                            s.apply(gl.span, &mut v);
+                            v.iter().collect::<String>()
+                        });
+                        let got = rc.apply(e.range, &e.new_text);
+                        rep.count(&format!("document_edit:{}", ["replace", "insert_after", "remove"][sug_parts(s).0]));
+                        if *title != s.to_string() || !matches!((&want, &got), (Ok(w), Some(g)) if w == g) {
+                            fail(rep, "edit_mismatch", format!("edit \"{title}\" at {}{situation}: client gets {got:?}, Suggestion::apply of {s} on {:?} gets {want:?}", fmt_range(&e.range), gl.span), req.clone());
+                        }
+                    }
+                    if lj == want_lint {
+                        found = true;
+                        if group.iter().any(|(_, e)| e.range != want_range) {
+                            fail(rep, "edit_range_not_diagnostic_range", format!("an edit of the lint does not carry the diagnostic's range{situation}"), req.clone());
+                        }
+                    }
+                }
+                _ => {}
+            }
+        }
+        if !found {
+            miss(rep, format!("the answer ({} entries) does not contain this lint's fixes", acts.len()));
+        }
+    }
+}
+
+/// diagnostics vs the lints they were made from: same number, same messages, every range read by the
+/// reference client covers exactly the lint's characters.  Returns the (lint, range) pairs the code-action
+/// oracle is to be run on (lints inside the text whose endpoints are not between CR and LF).
+fn check_diagnostics(rep: &mut Report, t: &[char], rc: &RefClient, diags: &[lsx::tower_lsp::lsp_types::Diagnostic], lints: &[Lint], inp: &Value, situation: &str) -> Option<Vec<usize>> {
+    if diags.len() != lints.len() || diags.iter().zip(lints).any(|(d, l)| d.message != l.message) {
+        fail(rep, "diagnostics_not_lints", format!("{} diagnostics for {} lints, or messages differ{situation}", diags.len(), lints.len()), inp.clone());
+        return None;
+    }
+    let nl_count = t.iter().filter(|c| **c == '\n').count();
+    let mut usable = vec![];
+    for (k, (d, l)) in diags.iter().zip(lints).enumerate() {
+        let (a, b) = (l.span.start, l.span.end);
+        if !(a <= b && b <= t.len()) {
+            rep.count("lint:out_of_bounds(C03's business)");
+            continue;
+        }
+        // hypothesis: no lint span endpoint between '\r' and '\n'
+        if inside_crlf(t, a) || inside_crlf(t, b) {
+            rep.monitor("violations:lint span endpoint between CR and LF", 1);
+            fail(rep, "hyp_crlf_endpoint", format!("lint {:?} \"{}\" has an endpoint between CR and LF", l.span, l.message), inp.clone());
+            continue;
+        }
+        rep.monitor("checked:lint span endpoints not between CR and LF", 1);
+        let (x, y) = (rc.resolve(d.range.start), rc.resolve(d.range.end));
+        if x != Some(a) || y != Some(b) {
+            fail(rep, "range_wrong", format!("diagnostic \"{}\" for lint span [{a},{b}) has range {} which an LSP client reads as {:?}..{:?}{situation}", d.message, fmt_range(&d.range), x, y), inp.clone());
+            continue;
+        }
+        let line_of_end = rc.position_of_char(b.saturating_sub(1).max(a)).line as usize;
+        rep.count(if a == b {
+            "lint:empty_span(no position inside)"
+        } else if d.range.start.line == 0 {
+            "lint:on_first_line"
+        } else if line_of_end == nl_count {
+            "lint:on_last_line"
+        } else {
+            "lint:on_middle_line"
+        });
+        if t[a..b].iter().any(|c| (*c as u32) >= 0x10000) || t[..a].iter().rev().take_while(|c| **c != '\n').any(|c| (*c as u32) >= 0x10000) {
+            rep.count("lint:astral_before_or_inside_on_its_line");
+        }
+        usable.push(k);
+    }
+    Some(usable)
+}
+
 /// a real document through DocumentState: diagnostics, then code actions at every position inside
 /// every diagnostic range
 fn check_document(rep: &mut Report, cx: &mut Ctx, r: &mut Rng, fe: &str, text: &str, max_positions: usize) {
@@ -451,150 +597,140 @@ fn check_document(rep: &mut Report, cx: &mut Ctx, r: &mut Rng, fe: &str, text: &
     };
     cx.st.document = doc;
     let st = &mut cx.st;
-    let res = guarded(|| {
-        let diags = st.generate_diagnostics(DiagnosticSeverity::Hint);
-        // the lints the diagnostics were made from, computed the way generate_diagnostics does
-        let temp = st.linter.config.clone();
-        st.linter.config.fill_with_curated();
-        let mut lints = st.linter.lint(&st.document);
-        st.linter.config = temp;
-        st.ignored_lints.remove_ignored(&mut lints, &st.document);
-        (diags, lints)
-    });
+    // the diagnostics and the lints they were made from, computed the way generate_diagnostics does
+    let res = guarded(|| (st.generate_diagnostics(DiagnosticSeverity::Hint), lints_like_state(st)));
     let Ok((diags, lints)) = res else {
         rep.count("document:lint panicked(C01's business)");
         return;
     };
     rep.count(&format!("document:{}", fe.split(':').next().unwrap()));
-    if diags.len() != lints.len() || diags.iter().zip(&lints).any(|(d, l)| d.message != l.message) {
-        fail(rep, "diagnostics_not_lints", format!("{} diagnostics for {} lints, or messages differ", diags.len(), lints.len()), inp);
-        return;
-    }
+    let rc = RefClient::new(text);
+    let Some(usable) = check_diagnostics(rep, &t, &rc, &diags, &lints, &inp, "") else { return };
     if lints.is_empty() {
         return;
     }
     rep.nontrivial(&(3u8, fe.to_string(), text.to_string()));
     rep.count_n("lints", lints.len() as u64);
-    let rc = RefClient::new(text);
-    let nl_count = t.iter().filter(|c| **c == '\n').count();
-    for (d, l) in diags.iter().zip(&lints) {
-        let (a, b) = (l.span.start, l.span.end);
-        if !(a <= b && b <= t.len()) {
-            rep.count("lint:out_of_bounds(C03's business)");
-            continue;
-        }
-        // hypothesis: no lint span endpoint between '\r' and '\n'
-        if inside_crlf(&t, a) || inside_crlf(&t, b) {
-            rep.monitor("violations:lint span endpoint between CR and LF", 1);
-            fail(rep, "hyp_crlf_endpoint", format!("lint {:?} \"{}\" has an endpoint between CR and LF", l.span, l.message), inp.clone());
-            continue;
-        }
-        rep.monitor("checked:lint span endpoints not between CR and LF", 1);
-        let (x, y) = (rc.resolve(d.range.start), rc.resolve(d.range.end));
-        if x != Some(a) || y != Some(b) {
-            fail(rep, 
-                "range_wrong",
-                format!("diagnostic \"{}\" for lint span [{a},{b}) has range {} which an LSP client reads as {:?}..{:?}", d.message, fmt_range(&d.range), x, y),
-                inp.clone(),
-            );
-            continue;
-        }
-        let line_of_end = rc.position_of_char(b.saturating_sub(1).max(a)).line as usize;
-        rep.count(if a == b {
-            "lint:empty_span(no position inside)"
-        } else if d.range.start.line == 0 {
-            "lint:on_first_line"
-        } else if line_of_end == nl_count {
-            "lint:on_last_line"
-        } else {
-            "lint:on_middle_line"
+    let legit: Vec<Value> = lints.iter().map(|l| serde_json::to_value(l).unwrap()).collect();
+    for k in usable {
+        let cfg = cx.cfg.clone();
+        check_actions_for_lint(rep, &mut cx.st, &cfg, r, &t, &rc, &lints[k], diags[k].range, max_positions, &inp, "", &legit);
+    }
+}
+
+/// One step of a history: the text the document is replaced by, and when diagnostics are generated for it
+/// relative to the code-action requests ("before": didChange completed before the request was served;
+/// "after": the request was served between update_document and publish_diagnostics; "none": no
+/// diagnostics at all for this text, the next update arrives first).
+fn step_json(text: &str, diag: &str) -> Value {
+    json!({"text": text, "diag": diag})
+}
+
+/// A history on ONE DocumentState, in the order the doc_state mutex of backend.rs can serialise handlers:
+/// for every step the document is replaced (update_document), then code actions are requested at every
+/// lint of the NEW text - the text the client holds - with generate_diagnostics before them, after them
+/// or not at all.  The lints of the new text come from a fresh reference linter that shares nothing with
+/// the DocumentState under test.  Whatever happened before, the answers must be the new text's fixes.
+fn check_history(rep: &mut Report, cx: &mut Ctx, r: &mut Rng, fe: &str, steps: &[Value], max_positions: usize) {
+    rep.eval();
+    let inp = json!({"kind": "history", "frontend": fe, "steps": steps});
+    if steps.iter().any(|s| has_lone_cr(&chars(s["text"].as_str().unwrap_or("")))) {
+        rep.count("history:lone_CR(outside the property's domain, skipped)");
+        return;
+    }
+    let dict = cx.dict.clone();
+    let mut st = new_state(&dict);
+    rep.count("history");
+    let mut prev_text: Option<String> = None;
+    let mut diag_text: Option<String> = None; // the text generate_diagnostics last ran on
+    for (n, step) in steps.iter().enumerate() {
+        let text = step["text"].as_str().unwrap_or("");
+        let when = step["diag"].as_str().unwrap_or("before");
+        let t: Vec<char> = chars(text);
+        let rc = RefClient::new(text);
+        // the reference: the lints of this text by a fresh linter on a fresh document
+        let reference = guarded(|| {
+            let doc = frontends::make_document(fe, text, &dict);
+            let mut fresh = new_state(&dict);
+            fresh.document = doc;
+            lints_like_state(&mut fresh)
         });
-        if t[a..b].iter().any(|c| (*c as u32) >= 0x10000) || t[..a].iter().rev().take_while(|c| **c != '\n').any(|c| (*c as u32) >= 0x10000) {
-            rep.count("lint:astral_before_or_inside_on_its_line");
-        }
-        // positions inside [a,b): all of them, or a sample for long spans
-        let mut idxs: Vec<usize> = (a..b).collect();
-        if idxs.len() > max_positions {
-            let mut pick = vec![a, a + 1, b - 1, b - 2];
-            while pick.len() < max_positions {
-                pick.push(a + r.below(b - a));
+        let Ok(ref_lints) = reference else {
+            rep.count("history:front-end or lint panicked(C01's business)");
+            return;
+        };
+        // update_document: the document is replaced, nothing else happens under the lock
+        let Ok(doc) = guarded(|| frontends::make_document(fe, text, &dict)) else { return };
+        st.document = doc;
+        let stale = diag_text.is_some() && diag_text.as_deref() != Some(text);
+        let situation = match (when, stale) {
+            ("before", _) => format!(" [history step {n}: after generate_diagnostics on this text]"),
+            (_, true) => format!(" [history step {n}: the document was replaced and generate_diagnostics has not run on the new text yet]"),
+            (_, false) => format!(" [history step {n}: no generate_diagnostics since the document was set]"),
+        };
+        rep.count(&format!(
+            "history_step:diag_{when}{}",
+            if prev_text.as_deref() == Some(text) { ",same_text" } else if n == 0 { ",first" } else { ",text_changed" }
+        ));
+        let legit: Vec<Value> = ref_lints.iter().map(|l| serde_json::to_value(l).unwrap()).collect();
+        let mut run_diag = |rep: &mut Report, st: &mut DocumentState, tag: &str| -> bool {
+            let Ok(diags) = guarded(|| st.generate_diagnostics(DiagnosticSeverity::Hint)) else {
+                rep.count("history:lint panicked(C01's business)");
+                return false;
+            };
+            check_diagnostics(rep, &t, &rc, &diags, &ref_lints, &inp, &format!(" [history step {n}, diagnostics {tag} the code-action requests]")).is_some()
+        };
+        if when == "before" {
+            if !run_diag(rep, &mut st, "before") {
+                return;
             }
-            pick.sort();
-            pick.dedup();
-            idxs = pick;
+            diag_text = Some(text.to_string());
         }
-        let want_lint = serde_json::to_value(l).unwrap();
-        for i in idxs {
-            if inside_crlf(&t, i) {
+        if !ref_lints.is_empty() {
+            rep.nontrivial(&(4u8, fe.to_string(), text.to_string(), prev_text.clone(), when.to_string()));
+        }
+        for l in &ref_lints {
+            let (a, b) = (l.span.start, l.span.end);
+            if !(a < b && b <= t.len()) || inside_crlf(&t, a) || inside_crlf(&t, b) {
                 continue;
             }
-            let p = rc.position_of_char(i);
-            // an editor sends the cursor (empty range) or the selection; take both shapes
-            let rg = if i % 3 == 2 { Range { start: p, end: d.range.end } } else { Range { start: p, end: p } };
-            rep.eval();
-            rep.count("code_action_requests");
-            let st = &mut cx.st;
-            let cfg = &cx.cfg;
-            let acts = guarded(|| st.generate_code_actions(rg, cfg));
-            let known = f9_request(&t, &rc, rg.start, rg.end);
-            let req = json!({"kind": "document", "frontend": fe, "text": text, "at": [rg.start.line, rg.start.character, rg.end.line, rg.end.character]});
-            let miss = |rep: &mut Report, why: String| {
-                if known {
-                    fail(rep, "lookup_last_line", format!("code actions requested at {} inside the diagnostic \"{}\" ({}): {why}; the position lies on the final line (line >= 1) and is resolved on the line before it", fmt_range(&rg), d.message, fmt_range(&d.range)), req.clone());
-                } else {
-                    fail(rep, "code_action_missing", format!("code actions requested at {} inside the diagnostic \"{}\" ({}): {why}", fmt_range(&rg), d.message, fmt_range(&d.range)), req.clone());
-                }
-            };
-            let acts = match acts {
-                Ok(a) => a,
-                Err(m) => {
-                    miss(rep, format!("panic: {m}"));
-                    continue;
-                }
-            };
-            // split the answer into one group per lint: its CodeActions, then the HarperIgnoreLint command
-            let mut pending: Vec<(String, TextEdit)> = vec![];
-            let mut found = false;
-            for act in &acts {
-                match act {
-                    CodeActionOrCommand::CodeAction(_) => pending.extend(edits_of(std::slice::from_ref(act))),
-                    CodeActionOrCommand::Command(c) if c.command == "HarperIgnoreLint" => {
-                        let lj = c.arguments.as_ref().and_then(|a| a.get(1)).cloned().unwrap_or(Value::Null);
-                        let group = std::mem::take(&mut pending);
-                        let Ok(gl) = serde_json::from_value::<Lint>(lj.clone()) else {
-                            fail(rep, "embedded_lint_unreadable", "the lint embedded in HarperIgnoreLint does not deserialise".into(), req.clone());
-                            continue;
-                        };
-                        // every returned edit, applied by the client, is the suggestion applied to the span
-                        if group.len() != gl.suggestions.len() {
-                            fail(rep, "edit_count", format!("{} edits for {} suggestions", group.len(), gl.suggestions.len()), req.clone());
-                        }
-                        for ((title, e), s) in group.iter().zip(&gl.suggestions) {
-                            let want = guarded(|| {
-                                let mut v = t.clone();
-                                s.apply(gl.span, &mut v);
-                                v.iter().collect::<String>()
-                            });
-                            let got = rc.apply(e.range, &e.new_text);
-                            rep.count(&format!("document_edit:{}", ["replace", "insert_after", "remove"][sug_parts(s).0]));
-                            if *title != s.to_string() || !matches!((&want, &got), (Ok(w), Some(g)) if w == g) {
-                                fail(rep, "edit_mismatch", format!("edit \"{title}\" at {}: client gets {got:?}, Suggestion::apply of {s} on {:?} gets {want:?}", fmt_range(&e.range), gl.span), req.clone());
-                            }
-                        }
-                        if lj == want_lint {
-                            found = true;
-                            if group.iter().any(|(_, e)| e.range != d.range) {
-                                fail(rep, "edit_range_not_diagnostic_range", "an edit of the lint does not carry the diagnostic's range".into(), req.clone());
-                            }
-                        }
-                    }
-                    _ => {}
-                }
-            }
-            if !found {
-                miss(rep, format!("the answer ({} entries) does not contain this lint's fixes", acts.len()));
-            }
+            rep.count(if when == "before" { "history_lint:diagnostics_current" } else if stale { "history_lint:diagnostics_stale" } else { "history_lint:no_diagnostics_yet" });
+            let want_range = Range { start: rc.position_of_char(a), end: rc.position_of_char(b) };
+            let cfg = cx.cfg.clone();
+            check_actions_for_lint(rep, &mut st, &cfg, r, &t, &rc, l, want_range, max_positions, &inp, &situation, &legit);
         }
+        if when == "after" {
+            if !run_diag(rep, &mut st, "after") {
+                return;
+            }
+            diag_text = Some(text.to_string());
+        }
+        prev_text = Some(text.to_string());
+    }
+}
+
+/// the next text of a history: an edit of `cur` that moves, removes, adds or keeps lints
+fn next_text(r: &mut Rng, fe: &str, cur: &str) -> String {
+    let plainish = matches!(fe, "plain" | "markdown" | "markdown-ilt" | "gitcommit");
+    match r.below(9) {
+        0 if plainish => format!("Intro line here.\n{cur}"), // every lint moves down a line
+        1 if plainish => format!("😀 teh {cur}"),             // columns of the first line move by 2+4 units, one more lint
+        2 => match cur.find("teh") {
+            Some(i) => format!("{}the{}", &cur[..i], &cur[i + 3..]), // a lint disappears, nothing moves
+            None => format!("{cur}\nteh end"),
+        },
+        3 if plainish => format!("{cur}\nAnd an apple an problem"), // a new lint on a last line without newline
+        4 => match cur.find('\n') {
+            Some(i) if i + 1 < cur.len() => cur[i + 1..].to_string(), // the first line goes: every lint moves up
+            _ => format!("{cur} recieve"),
+        },
+        5 => frontends::embed(fe, r), // an unrelated text
+        6 => cur.to_string(),         // didChange with the same text
+        7 => match cur.find("recieve") {
+            Some(i) => format!("{}receive and 𝒜 recieve{}", &cur[..i], &cur[i + 7..]), // the lint moves right on its line
+            None => cur.replacen(' ', "  ", 1),
+        },
+        _ => cur.replacen(". ", ".\n", 1), // a line break appears: lints behind it change line and column
     }
 }
 
@@ -602,6 +738,10 @@ fn replay_input(rep: &mut Report, cx: &mut Ctx, r: &mut Rng, v: &Value) {
     let t: Vec<char> = v["text"].as_str().unwrap_or("").chars().collect();
     match v["kind"].as_str() {
         Some("document") => check_document(rep, cx, r, v["frontend"].as_str().unwrap_or("plain"), v["text"].as_str().unwrap_or(""), usize::MAX),
+        Some("history") => {
+            let steps: Vec<Value> = v["steps"].as_array().cloned().unwrap_or_default();
+            check_history(rep, cx, r, v["frontend"].as_str().unwrap_or("plain"), &steps, usize::MAX)
+        }
         kind => {
             // the exact case first (a long text is not swept exhaustively), then the whole text
             let rc = RefClient::new(v["text"].as_str().unwrap_or(""));
@@ -642,14 +782,9 @@ fn random_text(r: &mut Rng, max_pieces: usize) -> Vec<char> {
 
 pub fn run(a: &Args, corpus: &[Value]) {
     let mut rep = Report::new(&a.out);
-    rep.rule = "texts: random concatenations of ASCII/tab/LF/CRLF/lone-CR/astral/combining/BMP-edge pieces (<= 12 pieces; all spans incl. out-of-text ones, the full position grid incl. non-existent lines and columns past the line end, all ordered pairs of valid positions on small texts, 1-3 suggestions per span through diagnostics::lint_to_code_actions); documents from every front-end through DocumentState with the curated LintGroup: every diagnostic range read by the reference client, code actions requested at every position inside every diagnostic range (sampled for spans longer than the bound), every returned TextEdit applied by the reference client. the UTF-16 width of single scalar values (every 251st + boundaries; thorough: all 1 112 063 except LF); the specification side (resolve_lsp / client_apply_lsp, lines ending at LF, CRLF or CR) against the reference client on every text incl. lone CR. thorough adds all texts of length <= 4 over {a, LF, astral, CR}. non-trivial = distinct (text, span) / (text, span, suggestion) / (text, range) / linted document".into();
+    rep.rule = "texts: random concatenations of ASCII/tab/LF/CRLF/lone-CR/astral/combining/BMP-edge pieces (<= 12 pieces; all spans incl. out-of-text ones, the full position grid incl. non-existent lines and columns past the line end, all ordered pairs of valid positions on small texts, 1-3 suggestions per span through diagnostics::lint_to_code_actions); documents from every front-end through DocumentState with the curated LintGroup: every diagnostic range read by the reference client, code actions requested at every position inside every diagnostic range (sampled for spans longer than the bound), every returned TextEdit applied by the reference client. the UTF-16 width of single scalar values (every 251st + boundaries; thorough: all 1 112 063 except LF); the specification side (resolve_lsp / client_apply_lsp, lines ending at LF, CRLF or CR) against the reference client on every text incl. lone CR. thorough adds all texts of length <= 4 over {a, LF, astral, CR}. histories on one DocumentState: 2-5 texts derived from each other by edits that move / remove / add lints, the document replaced and code actions requested at every lint of the new text (lints by a fresh reference linter) with generate_diagnostics before, after or not at all. non-trivial = distinct (text, span) / (text, span, suggestion) / (text, range) / linted document / linted history step".into();
     let dict = FstDictionary::curated();
-    let mut merged = MergedDictionary::new();
-    merged.add_dictionary(dict.clone());
-    let merged = Arc::new(merged);
-    let mut st = DocumentState::default();
-    st.linter = LintGroup::new_curated(merged.clone(), Dialect::American);
-    st.dict = merged;
+    let st = new_state(&dict);
     let mut cx = Ctx { dict, url: Url::parse("file:///doc.txt").unwrap(), cfg: CodeActionConfig::default(), st };
     let mut r = Rng::new(a.seed);
     for c in corpus {
@@ -737,6 +872,26 @@ pub fn run(a: &Args, corpus: &[Value]) {
             }
             check_document(&mut rep, &mut cx, &mut r, fe, &text, max_positions);
         }
+    }
+    // histories on one DocumentState (update_document / generate_code_actions / generate_diagnostics in
+    // every order the doc_state mutex admits)
+    let hist_fes = ["plain", "plain", "markdown", "plain", "c:rust", "c:python", "lhaskell", "gitcommit", "html", "typst"];
+    for h in 0..a.scale(40, 500) {
+        let fe = hist_fes[h % hist_fes.len()];
+        let mut cur = match h % 4 {
+            0 => "This is teh first line.\nAnd teh second.".to_string(),
+            1 => format!("{} teh 😀 recieve", frontends::embed(fe, &mut r)),
+            _ => frontends::embed(fe, &mut r),
+        };
+        let mut steps = vec![step_json(&cur, "before")];
+        for _ in 0..r.range(1, 4) {
+            cur = next_text(&mut r, fe, &cur);
+            steps.push(step_json(&cur, *r.pick(&["before", "after", "after", "none", "none"])));
+        }
+        if steps.iter().any(|s| s["text"].as_str().unwrap().chars().count() > 500) {
+            continue;
+        }
+        check_history(&mut rep, &mut cx, &mut r, fe, &steps, a.scale(3, 12));
     }
     rep.finish();
 }
